@@ -44,6 +44,11 @@ def cf(x):
     return h
 
 
+def cfs(x):
+    """scalar float literal with its scope"""
+    return "(%s)%%float" % cf(x)
+
+
 def clist(items, f=str):
     return "[" + "; ".join(f(i) for i in items) + "]"
 
